@@ -1013,6 +1013,49 @@ func c03Run(r *mon.Run) {
 			r.Sample(map[string]any{"kind": "generated document", "layout": lay, "text": string(doc)})
 		}
 	}
+	// (4) big documents: widths, depths and lengths around the usual thresholds
+	{
+		bi := 0
+		big := func(t string) {
+			if r.Mine(bi) {
+				// judged as written (no tree model: a big witness is reported unreduced, keyed by its shape)
+				r.Eval(1)
+				fails, in := c03Judge([]byte(t))
+				if !in {
+					r.Inconclusive("big-text-outside-the-family")
+				}
+				for _, f := range fails {
+					st.report(f.clause, fmt.Sprintf("big document %d bytes starting %s", len(t), mon.Trunc(t, 24)), f.what, []byte(t), []byte(t))
+				}
+				r.Nontrivial("d", t)
+				r.Count("big_documents", 1)
+			}
+			bi++
+		}
+		scalars := []string{"1", `"s"`, "true", "null", "-0.50", `"\u00e9\n"`, "{}", "[]", "0.0"}
+		for _, n := range []int{8, 9, 16, 17, 32, 33, 64, 65, 128, 129, 256, 257, 1025} {
+			var items, members []string
+			for i := 0; i < n; i++ {
+				v := scalars[(i+n)%len(scalars)]
+				items = append(items, v)
+				members = append(members, fmt.Sprintf(`"k%d":%s`, i, v))
+			}
+			big("[" + strings.Join(items, ",") + "]")
+			big("{" + strings.Join(members, ",") + "}")
+			if n <= 257 {
+				for _, inner := range []string{"1", `"x"`, "{}", "[]"} {
+					big(strings.Repeat("[", n) + inner + strings.Repeat("]", n))
+					big(strings.Repeat(`{"a":`, n) + inner + strings.Repeat("}", n))
+				}
+			}
+			for _, unit := range []string{"a", "é", "😀", `\n`, `\u0041`, `\\`, `\"`, " ", "/"} {
+				big(`"` + strings.Repeat(unit, n) + `"`)
+				big(`{"` + strings.Repeat(unit, n) + `":"` + strings.Repeat(unit, n) + `"}`)
+			}
+			big(strings.Repeat("9", n))
+			big("-" + strings.Repeat("9", n) + "." + strings.Repeat("0", n) + "1")
+		}
+	}
 	r.Count("reduction_probes", st.probes)
 }
 
@@ -1105,7 +1148,7 @@ func init() {
 				r.Violate(f.clause, key, f.what, c)
 			}
 		},
-		Rule:               "each JSON text J (RFC 8259, no exponent numbers, decoded keys distinct per object, <= 64 KiB) is given to jschema.New(\"root\", J): Check() must succeed; Example() must succeed, be valid JSON (encoding/json.Valid) and decode to the same tree as J (kinds, decoded keys in order, decoded strings, raw number texts, literals); GetAST() must have the same shape with TokenType per kind, Children in order, Key = decoded key, Value = decoded string / raw number / literal. Workload: fixed corner documents x 5 layouts; every string of <= 3 (quick) / <= 4 (thorough) atoms out of 20 (letter, the eight two-character escapes, \\u0000, \\u00e9 and raw e-acute, an escaped surrogate pair and the raw emoji, / // # @a { :) placed as S, {\"k\":S}, {\"k\":[S]}, {S:0}, {\"k\":[{S:0}]}, {S:S}; 100k (quick) / 3M (thorough) generated documents (depth <= 8, <= 200 nodes, 76 string atoms incl. \\uXXXX forms of quote/backslash/controls, numbers incl. -0, 0.10, 0.0 and digit strings up to 75 digits) laid out without blanks, one element per line (LF/CRLF/CR, four indents) or with random runs of space/TAB/LF/CR in every gap. Failing documents are reduced (single key / scalar on its own, then atom-wise) before being reported. distinct_nontrivial = distinct texts (hashed).",
+		Rule:               "each JSON text J (RFC 8259, no exponent numbers, decoded keys distinct per object, <= 64 KiB) is given to jschema.New(\"root\", J): Check() must succeed; Example() must succeed, be valid JSON (encoding/json.Valid) and decode to the same tree as J (kinds, decoded keys in order, decoded strings, raw number texts, literals); GetAST() must have the same shape with TokenType per kind, Children in order, Key = decoded key, Value = decoded string / raw number / literal. Workload: fixed corner documents x 5 layouts; every string of <= 3 (quick) / <= 4 (thorough) atoms out of 20 (letter, the eight two-character escapes, \\u0000, \\u00e9 and raw e-acute, an escaped surrogate pair and the raw emoji, / // # @a { :) placed as S, {\"k\":S}, {\"k\":[S]}, {S:0}, {\"k\":[{S:0}]}, {S:S}; 100k (quick) / 3M (thorough) generated documents (depth <= 8, <= 200 nodes, 76 string atoms incl. \\uXXXX forms of quote/backslash/controls, numbers incl. -0, 0.10, 0.0 and digit strings up to 75 digits) laid out without blanks, one element per line (LF/CRLF/CR, four indents) or with random runs of space/TAB/LF/CR in every gap. Failing documents are reduced (single key / scalar on its own, then atom-wise) before being reported. Plus big documents judged as written: arrays / objects of 8..1025 members, nesting 8..257 deep, strings, keys and numbers of 8..1025 units (plain, multi-byte, escaped). distinct_nontrivial = distinct texts (hashed).",
 		MinNontrivialQuick: 100000, MinNontrivialThorough: 2000000,
 		Assumptions: []string{"encoding/json (Valid, Decoder with UseNumber) is the independent RFC 8259 decoder for J and for Example()",
 			"\"same literals\" is judged on the raw number text (-0, 0.10 and long digit strings must come back unchanged)",
